@@ -19,7 +19,22 @@ func drawC14(rt *rapid.T) *Case {
 	p := g.Path()
 	r := gen.Render(p, gen.Canon)
 	d := g.Doc(p)
-	return &Case{Path: r.Text, AST: p, Texts: r.Steps, Doc: d, DocKind: g.DocKind, UseNumber: rapid.Bool().Draw(rt, "usenumber"), Funcs: true}
+	c := &Case{Path: r.Text, AST: p, Texts: r.Steps, Doc: d, DocKind: g.DocKind, UseNumber: rapid.Bool().Draw(rt, "usenumber"), Funcs: true}
+	if gen.Uniform(rt, "shared", 8) == 0 {
+		// one container reachable by two paths (a document built in Go, not decoded): its values are
+		// selected once per path that leads to them, and the functions see every one of them
+		c.Ints = []int{1 + int(rapid.Uint32().Draw(rt, "shareseed"))}
+	}
+	return c
+}
+
+// c14Document builds the case's document (with shared sub-containers when the case says so).
+func c14Document(c *Case) interface{} {
+	doc := c.Document()
+	if len(c.Ints) > 0 {
+		doc = gen.ShareSubtrees(doc, uint64(c.Ints[0]))
+	}
+	return doc
 }
 
 // compareCallLogs compares the recorder's log with SPEC's expected calls.
@@ -151,15 +166,18 @@ func compareCallLogsEq(rec *Recorder, res *spec.Result, st *Stats, ast *gen.Path
 func checkC14(c *Case, st *Stats) string {
 	docText := c.Doc.JSON()
 	Journal(c.Check, c.Path, docText, flagString(c))
-	lib := evalLibrary(c, c.Document(), false)
+	lib := evalLibrary(c, c14Document(c), false)
 	st.Eval(1)
+	if len(c.Ints) > 0 {
+		st.Class("doc:shared-subtree")
+	}
 	if lib.lateBinding != "" {
 		return lib.lateBinding
 	}
 	if lib.parseErr != nil {
 		return fmt.Sprintf("generated path was rejected by Parse: %v", lib.parseErr)
 	}
-	res := spec.Eval(c.AST, c.Document(), gen.PureFuncs{})
+	res := spec.Eval(c.AST, c14Document(c), gen.PureFuncs{})
 	if res.Unspecified {
 		st.Class("unspecified")
 		return ""
@@ -168,7 +186,7 @@ func checkC14(c *Case, st *Stats) string {
 		return msg
 	}
 	// the same call protocol holds in accessor mode: functions see plain values
-	acc := evalLibrary(c, c.Document(), true)
+	acc := evalLibrary(c, c14Document(c), true)
 	st.Eval(1)
 	if acc.parseErr == nil {
 		if msg := compareCallLogs(acc.rec, res, st, c.AST); msg != "" {
